@@ -124,6 +124,8 @@ def evaluate(ids):
         sh("git checkout -q -- . && git clean -fdq", cwd=wt)
         rc, out = sh(["git", "apply", os.path.join(d, "patch.diff")], cwd=wt)
         if rc != 0:
+            rc, out = sh(["git", "apply", "--3way", os.path.join(d, "patch.diff")], cwd=wt)
+        if rc != 0:
             print(name, "patch does not apply to current HEAD:", out[-200:], flush=True)
             continue
         result = {"repo_head": sh(["git", "-C", "/repo", "rev-parse", "--short", "HEAD"])[1].strip(), "checks": {}}
@@ -134,7 +136,8 @@ def evaluate(ids):
             env = {"QV_REPO": wt, "QV_EVIDENCE_DIR": "/tmp/mutscratch/evidence", "QV_REPLAY_DIR": os.path.join("/tmp/mutscratch/replays", name)}
             rc, out = sh(["./check", c, "--tier", "quick"], cwd=VERIF, env=env, timeout=3000)
             viol = re.findall(r"^VIOLATION .*", out, flags=re.M)
-            result["checks"][c] = {"exit": rc, "detected": rc == 1 and bool(viol), "violations": viol[:4],
+            broken = any("-build.json" in v for v in viol)
+            result["checks"][c] = {"exit": rc, "detected": rc == 1 and bool(viol) and not broken, "broken_build": broken, "violations": viol[:4],
                                    "with_replay": any("no-failing-input-found" not in v for v in viol),
                                    "tail": out[-300:]}
         result["detected"] = any(v.get("detected") for v in result["checks"].values())
